@@ -1099,8 +1099,10 @@ class CompositeEnvelope:
                     outcomes[k] = o
             elif s.index is None:
                 if not s.measured:
+                    # The envelope partner (if it has to be measured) is already
+                    # in state_list, so every member is measured on its own
                     out = s.measure(
-                        separate_measurement=separate_measurement,
+                        separate_measurement=True,
                         destructive=destructive,
                     )
                     for k, o in out.items():
